@@ -23,8 +23,11 @@ package klog
 
 //@ spec off(t Time) int = 1440*t.(*time).dayShift + 60*t.(*time).hour + t.(*time).minute
 //@ spec offp(t *time) int = 1440*t.dayShift + 60*t.hour + t.minute
+// dmin(d): the minutes of a Duration value (a plain duration, or a should-total wrapping one)
+//@ spec dmin(d Duration) int = ite(typeis(d, *duration), d.(*duration).minutes, d.(shouldTotal).Duration.(*duration).minutes)
 //@ spec fits(n int) bool = -9223372036854775807 <= n && n <= 9223372036854775807
 //@ spec small(n int) bool = -4611686018427387904 <= n && n <= 4611686018427387904
+//@ spec tiny(n int) bool = -2305843009213693952 <= n && n <= 2305843009213693952
 //@ spec ddn(d Date) int = dn(d.(*date).year, d.(*date).month, d.(*date).day)
 
 // ---------------------------------------------------------------------------------------------
@@ -39,12 +42,12 @@ package klog
 //@ ensures typeis(result, *duration) && fresh(result) && result.(*duration).minutes == amountHours*60 + amountMinutes && result.(*duration).format == DurationFormat{false, 0}
 
 //@ func (duration).Plus
-//@ requires nonnil(additional) && fits(d.minutes) && fits(additional.InMinutes()) && fits(d.minutes + additional.InMinutes())
-//@ ensures typeis(result, *duration) && fresh(result) && result.(*duration).minutes == d.minutes + additional.InMinutes()
+//@ requires nonnil(additional) && fits(d.minutes) && fits(dmin(additional)) && fits(d.minutes + dmin(additional))
+//@ ensures typeis(result, *duration) && fresh(result) && result.(*duration).minutes == d.minutes + dmin(additional)
 
 //@ func (duration).Minus
-//@ requires nonnil(deductible) && fits(d.minutes) && fits(deductible.InMinutes()) && fits(d.minutes - deductible.InMinutes())
-//@ ensures typeis(result, *duration) && fresh(result) && result.(*duration).minutes == d.minutes - deductible.InMinutes()
+//@ requires nonnil(deductible) && fits(d.minutes) && fits(dmin(deductible)) && fits(d.minutes - dmin(deductible))
+//@ ensures typeis(result, *duration) && fresh(result) && result.(*duration).minutes == d.minutes - dmin(deductible)
 
 // NewDurationFromString: accepted iff the text has the duration shape, at least one part, and
 // minutes < 60 when hours are present; the value is sign * (60*hours + minutes).
@@ -126,11 +129,50 @@ package klog
 // Plus: the time that many minutes later if it lies between the start of the previous and the
 // end of the next day, an error otherwise.
 //@ func (*time).Plus
-//@ requires nonnil(d) && small(d.InMinutes())
-//@ let sum = offp(t) + d.InMinutes()
+//@ requires nonnil(d) && small(dmin(d))
+//@ let sum = offp(t) + dmin(d)
 //@ ensures (result1 == nil) == (-1440 <= sum && sum < 2880)
 //@ ensures implies(result1 == nil, typeis(result0, *time) && off(result0) == sum && result0.(*time).format == t.format)
 //@ ensures implies(result1 != nil, isnil(result0))
+
+// ToString: the canonical literal. Expressed through the capture groups of timePattern (A-CODEC links the
+// format string of Sprintf to the pattern): shift markers, hour in the chosen notation, two-digit minute, am/pm.
+//@ func (*time).ToString
+//@ let g1 = group(timePattern, result, 1)
+//@ let g2 = group(timePattern, result, 2)
+//@ let g3 = group(timePattern, result, 3)
+//@ let g4 = group(timePattern, result, 4)
+//@ let g5 = group(timePattern, result, 5)
+//@ let h12 = ite(t.hour == 0, 12, ite(t.hour > 12, t.hour - 12, t.hour))
+//@ ensures matches(timePattern, result)
+//@ ensures (g1 == "<") == (t.dayShift < 0) && (g5 == ">") == (t.dayShift > 0)
+//@ ensures isdigits(g2) && num(g2) == ite(t.format.Use24HourClock, t.hour, h12)
+//@ ensures isdigits(g3) && num(g3) == t.minute
+//@ ensures implies(t.format.Use24HourClock, g4 == "") && implies(!t.format.Use24HourClock && t.hour >= 12, g4 == "pm") && implies(!t.format.Use24HourClock && t.hour < 12, g4 == "am")
+
+//@ func (*time).ToStringWithFormat
+//@ let g1 = group(timePattern, result, 1)
+//@ let g2 = group(timePattern, result, 2)
+//@ let g3 = group(timePattern, result, 3)
+//@ let g4 = group(timePattern, result, 4)
+//@ let g5 = group(timePattern, result, 5)
+//@ let h12 = ite(t.hour == 0, 12, ite(t.hour > 12, t.hour - 12, t.hour))
+//@ ensures matches(timePattern, result)
+//@ ensures (g1 == "<") == (t.dayShift < 0) && (g5 == ">") == (t.dayShift > 0)
+//@ ensures isdigits(g2) && num(g2) == ite(f.Use24HourClock, t.hour, h12)
+//@ ensures isdigits(g3) && num(g3) == t.minute
+//@ ensures implies(f.Use24HourClock, g4 == "") && implies(!f.Use24HourClock && t.hour >= 12, g4 == "pm") && implies(!f.Use24HourClock && t.hour < 12, g4 == "am")
+
+// Round trip: writing a time out (in its own or in any notation) and reading it back yields the same value and notation.
+//@ lemma timeRoundTrip(t *time)
+//@ requires t != nil
+//@ let r = NewTimeFromString(t.ToString())
+//@ ensures isnil(snd(r)) && typeis(fst(r), *time) && off(fst(r)) == offp(t) && fst(r).(*time).format == t.format
+
+//@ lemma timeRoundTripWithFormat(t *time, f TimeFormat)
+//@ requires t != nil
+//@ let r = NewTimeFromString(t.ToStringWithFormat(f))
+//@ ensures isnil(snd(r)) && typeis(fst(r), *time) && off(fst(r)) == offp(t) && fst(r).(*time).format == f
 
 // ---------------------------------------------------------------------------------------------
 // Range
@@ -169,9 +211,27 @@ package klog
 //@ ensures implies(ok, typeis(result0, *date) && result0.(*date).year == year && result0.(*date).month == month && result0.(*date).day == day && result0.(*date).format.UseDashes)
 //@ ensures implies(!ok, isnil(result0))
 
+// NewDateFromString: strings outside the date shape and non-Gregorian dates are rejected; an accepted string
+// denotes its year, month and day. (That mixed separators are rejected is decided through strings.Count and is
+// not expressed here.)
+//@ func NewDateFromString
+//@ let m = matches(datePattern, yyyymmdd)
+//@ let y = num(group(datePattern, yyyymmdd, 1))
+//@ let mo = num(group(datePattern, yyyymmdd, 2))
+//@ let dd = num(group(datePattern, yyyymmdd, 3))
+//@ ensures implies(!m || !validdate(y, mo, dd), result1 != nil && isnil(result0))
+//@ ensures implies(result1 == nil, typeis(result0, *date) && result0.(*date).year == y && result0.(*date).month == mo && result0.(*date).day == dd)
+
 //@ func NewDateFromGo
 //@ requires 0 <= gotime_year(t) && gotime_year(t) <= 9999
 //@ ensures typeis(result, *date) && result.(*date).year == gotime_year(t) && result.(*date).month == gotime_month(t) && result.(*date).day == gotime_day(t)
+
+// ToString: four-digit year, two-digit month and day, both separators equal and as chosen by the format.
+//@ func (*date).ToString
+//@ ensures matches(datePattern, result)
+//@ ensures isdigits(group(datePattern, result, 1)) && num(group(datePattern, result, 1)) == d.year
+//@ ensures isdigits(group(datePattern, result, 2)) && num(group(datePattern, result, 2)) == d.month
+//@ ensures isdigits(group(datePattern, result, 3)) && num(group(datePattern, result, 3)) == d.day
 
 //@ func (*date).IsEqualTo
 //@ requires nonnil(otherDate)
@@ -206,12 +266,12 @@ package klog
 //@ ensures typeis(result, *record) && fresh(result) && result.(*record).date == date && len(result.(*record).entries) == 0 && isnil(result.(*record).shouldTotal) && isnil(result.(*record).summary)
 
 //@ func (*record).ShouldTotal
-//@ ensures nonnil(result) && result.InMinutes() == ite(isnil(r.shouldTotal), 0, r.shouldTotal.InMinutes())
+//@ ensures nonnil(result) && dmin(result) == ite(isnil(r.shouldTotal), 0, dmin(r.shouldTotal))
 
 //@ func (*record).SetShouldTotal
-//@ requires nonnil(t) && fits(t.InMinutes())
+//@ requires nonnil(t) && fits(dmin(t))
 //@ modifies r.shouldTotal
-//@ ensures typeis(r.shouldTotal, shouldTotal) && r.shouldTotal.InMinutes() == t.InMinutes()
+//@ ensures typeis(r.shouldTotal, shouldTotal) && dmin(r.shouldTotal) == dmin(t)
 
 //@ func (*record).SetEntries
 //@ requires forall(i, 0, len(es), ekind(es[i]))
